@@ -1,0 +1,67 @@
+/*
+ * Verification hooks (only compiled with `--cfg starlark_verif`).
+ *
+ * Nothing in this module is reachable in a normal build: `lib.rs` declares it
+ * under `#[cfg(starlark_verif)]`.
+ */
+
+//! Hooks used by the out-of-tree verification harness.
+
+use std::cell::RefCell;
+
+struct GcSchedule {
+    /// Collect at safepoint `i` iff `mask[i]`.
+    mask: Vec<bool>,
+    /// Decision for safepoints beyond the mask.
+    tail: bool,
+    /// Number of safepoints seen so far.
+    seen: usize,
+    /// Number of collections performed so far.
+    collected: usize,
+}
+
+thread_local! {
+    static GC_SCHEDULE: RefCell<Option<GcSchedule>> = const { RefCell::new(None) };
+}
+
+/// Install a GC schedule for evaluations on this thread: while installed, the
+/// allocated-bytes threshold is ignored and a collection happens at safepoint
+/// number `i` (counted from 0 since this call) iff `mask[i]`, or `tail` beyond
+/// the mask. `Evaluator::disable_gc` is still honoured.
+pub fn set_gc_schedule(mask: Vec<bool>, tail: bool) {
+    GC_SCHEDULE.with(|s| {
+        *s.borrow_mut() = Some(GcSchedule {
+            mask,
+            tail,
+            seen: 0,
+            collected: 0,
+        })
+    });
+}
+
+/// Remove the GC schedule; returns `(safepoints seen, collections performed)`.
+pub fn clear_gc_schedule() -> (usize, usize) {
+    GC_SCHEDULE.with(|s| match s.borrow_mut().take() {
+        Some(s) => (s.seen, s.collected),
+        None => (0, 0),
+    })
+}
+
+/// Called at every GC safepoint. `None`: no schedule installed (default
+/// behaviour), `Some(b)`: collect iff `b`.
+pub(crate) fn gc_decision(gc_disabled: bool) -> Option<bool> {
+    GC_SCHEDULE.with(|s| {
+        let mut s = s.borrow_mut();
+        let s = s.as_mut()?;
+        let i = s.seen;
+        s.seen += 1;
+        let d = !gc_disabled && s.mask.get(i).copied().unwrap_or(s.tail);
+        if d {
+            s.collected += 1;
+        }
+        Some(d)
+    })
+}
+
+/// Byte written over arena memory when an arena is dropped.
+pub const POISON: u8 = 0xDB;
